@@ -324,17 +324,23 @@ class Dict(dict, base.Symbolic, pg_typing.CustomTyping):
               f'Dict is already bound with a different value spec: '
               f'{self._value_spec}. New value spec: {value_spec}.'))
 
+    spec_before, partial_before = self._value_spec, self._allow_partial
     self._allow_partial = allow_partial
 
     if flags.is_type_check_enabled():
       # NOTE(daiyip): self._value_spec will be set in Dict.custom_apply method
       # called by value_spec.apply, thus we don't need to set self._value_spec
       # explicitly.
-      value_spec.apply(
-          self,
-          allow_partial=base.accepts_partial(self),
-          child_transform=base.symbolic_transform_fn(self._allow_partial),
-          root_path=self.sym_path)
+      try:
+        value_spec.apply(
+            self,
+            allow_partial=base.accepts_partial(self),
+            child_transform=base.symbolic_transform_fn(self._allow_partial),
+            root_path=self.sym_path)
+      except Exception:
+        # A rejected spec is not adopted: the content does not conform to it.
+        self._value_spec, self._allow_partial = spec_before, partial_before
+        raise
     else:
       self._value_spec = value_spec
     return self
